@@ -607,6 +607,12 @@ def _set_member_default(inst, key, cls, attr):
         return True
 
     if def_val is not None:
+        # the deserializers append to the value of a repeated member: every
+        # instance needs its own copy of a list default, or the values of one
+        # request show up in the next one.
+        if isinstance(def_val, list):
+            def_val = list(def_val)
+
         # should not check for read-only for default values
         setattr(inst, key, def_val)
 
